@@ -36,6 +36,8 @@ def gen_case(rnd, cid):
         va, vb = progs.domain_values(rnd, op, bl, ka, kb)
         if op in ("lt", "le", "gt", "ge", "eq", "ne") and rnd.random() < 0.5:
             vb = va + rnd.choice([0, 0, 1, -1])          # boundary of the comparison
+        if op in ("eq", "ne") and rnd.random() < 0.15:
+            vb = va + rnd.choice([P, -P, 2 * P])         # operands that differ as integers but are EQUAL in the field
         if op in ("and", "or", "xor", "rshift", "lshift", "pow"):
             va = rnd.randrange(0, half); vb = rnd.randrange(0, min(half, 3) if op in ("rshift", "lshift", "pow") else half)
         if "B" in (ka, kb):
@@ -84,6 +86,8 @@ def gen_case(rnd, cid):
         v = rnd.choice([0, 1, half - 1, half, -1, -half, rnd.randrange(-half, half)])
         if m == "to_bits":
             v = rnd.randrange(0, 2 * half)
+        if m in ("check_zero", "check_nonzero") and rnd.random() < 0.2:
+            v = rnd.choice([P, -P, 2 * P])               # a non-zero multiple of the field prime
         ra = b.operand("L", value=v)
         b.ins[ra] = b.ins[ra].replace("const", "priv")
         rr = b.emit(f"call {m} r{ra}", "?")
